@@ -95,10 +95,13 @@ def main():
     n = int(arg("--workers", "4"))
     tier = arg("--tier", "quick")
     only = arg("--only", "")
+    props = [p for p in arg("--props", "").split(",") if p]
     global OUTNAME
     OUTNAME = arg("--out", "result.json")
     dirs = sorted(d for d in os.listdir(os.path.join(VERIF, "seeded"))
                   if os.path.exists(os.path.join(VERIF, "seeded", d, "patch.diff")) and d.startswith(only))
+    if props:
+        dirs = [d for d in dirs if json.load(open(os.path.join(VERIF, "seeded", d, "meta.json")))["property"][:3] in props]
     # partition by property so that the same check never runs twice at once (evidence file)
     byprop = {}
     for d in dirs:
@@ -114,7 +117,7 @@ def main():
     summary = {"repo_head": head, "tier": tier, "total": len(res),
                "caught": sum(1 for r in res if r.get("caught")),
                "not_caught": [r["dir"] for r in res if not r.get("caught")], "results": res}
-    if not only:
+    if not only and not props:
         json.dump(summary, open(os.path.join(VERIF, "seeded", "REGRESSION.json"), "w"), indent=1)
     print(json.dumps({k: v for k, v in summary.items() if k != "results"}, indent=1))
     return 0 if not summary["not_caught"] else 1
